@@ -55,7 +55,27 @@ UNDER_TEST = [
     (C("EKF", "MARG", frame="NED", rate="3Hz"), {"magnetic_ref": 60.0, "Dt": 0.02}, True), (C("UKF", "IMU", rate="3Hz"), {"Dt": 0.02}, True),
     (C("AQUA", "MARG", mode="fixed", rate="3Hz"), {"Dt": 0.02}, True), (C("ROLEQ", "MARG", frame="NED", rate="3Hz"), {"magnetic_ref": 60.0, "Dt": 0.02}, True),
     (C("Fourati", "MARG", rate="3Hz"), {"Dt": 0.02}, False), (C("AngularRate", "GYR", mode="closed", rate="3Hz"), {"Dt": 0.02}, True),
+    # the time step handed to every single update (dt=...) of an object built with the DEFAULT rate; the batch is built with Dt
+    (C("Madgwick", "IMU", rate="1000Hz"), {"gain": 0.1, "__dt__": 0.02}, True), (C("Madgwick", "MARG", rate="1000Hz"), {"gain": 0.1, "__dt__": 0.02}, False),
+    (C("Mahony", "MARG", rate="1000Hz"), {"__dt__": 0.02}, True), (C("EKF", "IMU", frame="NED", rate="1000Hz"), {"__dt__": 0.02}, True),
+    (C("EKF", "MARG", frame="ENU", rate="1000Hz"), {"magnetic_ref": 60.0, "__dt__": 0.02}, True), (C("UKF", "IMU", rate="1000Hz"), {"__dt__": 0.02}, True),
+    (C("AQUA", "MARG", mode="fixed", rate="1000Hz"), {"__dt__": 0.02}, True), (C("ROLEQ", "MARG", frame="NED", rate="1000Hz"), {"magnetic_ref": 60.0, "__dt__": 0.02}, True),
+    (C("Fourati", "MARG", rate="1000Hz"), {"__dt__": 0.02}, False), (C("AngularRate", "GYR", mode="closed", rate="1000Hz"), {"__dt__": 0.02}, True),
+    # no initial attitude given: the first row comes from the class's own initialiser (for ROLEQ: OLEQ, which draws from NumPy's RNG)
+    # (ROLEQ's start depends on where the global RNG stands when the object is built: only the exact repeat under the same seed and the
+    # fresh-interpreter run are comparable, not other interleavings)
+    (C("ROLEQ", "MARG", frame="NED", gain="high"), {"magnetic_ref": 60.0, "__repeat_only__": True}, False), (C("EKF", "MARG", frame="NED", gain="high"), {"magnetic_ref": 60.0}, False),
+    (C("Mahony", "MARG", gain="high"), {}, False), (C("AQUA", "MARG", mode="fixed", gain="high"), {}, False),
 ]
+
+
+def split_extra(ex):
+    """-> (constructor options for a data-less streaming object, constructor options for the batch, dt handed to each update)"""
+    if "__dt__" not in ex:
+        ex = {k: v for k, v in ex.items() if not k.startswith("__")}
+        return ex, ex, None
+    base = {k: v for k, v in ex.items() if not k.startswith("__")}
+    return dict(base, frequency=100.0), dict(base, Dt=ex["__dt__"]), ex["__dt__"]
 
 
 def name_of(c):
@@ -87,7 +107,7 @@ def solo(ti):
     real, extra, honours = UNDER_TEST[ti][:3]
     np.random.seed(12345)
     g, a, m = data(SOLO_IDS)
-    out = np.asarray(FL.batch(real, g, a, m, q0=Q0 if honours else None, extra=extra)[1], dtype=float)
+    out = np.asarray(FL.batch(real, g, a, m, q0=Q0 if honours else None, extra=split_extra(extra)[1])[1], dtype=float)
     return [[float(x).hex() for x in row] for row in out]
 
 
@@ -117,7 +137,7 @@ def replay_behaviours(args):
     # configuration alone; the rows must be bit-identical to the same run in a fresh interpreter
     try:
         g_, a_, m_ = data(SOLO_IDS)
-        FL.batch(other[0], g_, a_, m_, q0=Q0 if other[2] else None, extra=other[1])
+        FL.batch(other[0], g_, a_, m_, q0=Q0 if other[2] else None, extra=split_extra(other[1])[1])
     except Exception:
         pass
     if isinstance(fresh, dict):
@@ -139,7 +159,7 @@ def replay_behaviours(args):
         if hon:
             return Q0.copy()
         g, a, m = data([s0, s0])
-        return np.asarray(FL.batch(rc, g, a, m, extra=ex)[1], dtype=float)[0]
+        return np.asarray(FL.batch(rc, g, a, m, extra=split_extra(ex)[1])[1], dtype=float)[0]
 
     for rep in (0, 1):        # the repeat must be bit-identical
         for bi, b in enumerate(behs):
@@ -153,14 +173,14 @@ def replay_behaviours(args):
                     if act == "Create":
                         i, mc, s0 = args_
                         rc, ex, hon = conc(mc)
-                        obj = FL.create(rc, extra=ex)
+                        obj = FL.create(rc, extra=split_extra(ex)[0])
                         q = init_att(rc, ex, hon, s0[0])
-                        inst[i] = {"cfg": rc, "ex": ex, "obj": obj, "hist": [s0[0]], "rows": [np.array(q, dtype=float)], "how": "stream"}
+                        inst[i] = {"cfg": rc, "ex": ex, "obj": obj, "hist": [s0[0]], "rows": [np.array(q, dtype=float)], "how": "stream", "dt": split_extra(ex)[2]}
                     elif act == "Update":
                         i, s = args_
                         st = inst[i]
                         g, a, m = SAMPLES[s[0]]
-                        q = FL.step(st["cfg"], st["obj"], st["rows"][-1], g, a, m)
+                        q = FL.step(st["cfg"], st["obj"], st["rows"][-1], g, a, m, dt=st.get("dt"))
                         st["rows"].append(np.array(q, dtype=float))
                         st["hist"].append(s[0])
                     elif act == "Batch":
@@ -168,7 +188,7 @@ def replay_behaviours(args):
                         rc, ex, hon = conc(mc)
                         ids = [s[0] for s in h]
                         g, a, m = data(ids)
-                        obj, out = FL.batch(rc, g, a, m, q0=Q0 if hon else None, extra=ex)      # Q0: the caller's array itself, not a copy
+                        obj, out = FL.batch(rc, g, a, m, q0=Q0 if hon else None, extra=split_extra(ex)[1])      # Q0: the caller's array itself, not a copy
                         inst[i] = {"cfg": rc, "ex": ex, "obj": obj, "hist": ids, "rows": [np.array(r, dtype=float) for r in np.asarray(out)], "how": "batch"}
                     elif act == "Drop":
                         inst.pop(args_[0], None)
@@ -192,6 +212,8 @@ def replay_behaviours(args):
                     if key[0] != cname:
                         continue
                     exact = (rep0 != rep and acts0 == obs[3])
+                    if extra.get("__repeat_only__") and not exact:
+                        continue
                     d = maxdiff(rows0, obs[0])
                     t.resid("rows", d if np.isfinite(d) else 1.0)
                     bad = None
